@@ -1024,3 +1024,354 @@ Proof.
     + simpl. split; [reflexivity|]. split; [exact S1|]. split; [exact Q1|exact Ok1].
     + reflexivity.
 Qed.
+
+(* ------------------------------------------------------------------ the executor *)
+Definition SimW (A : path -> ast) (w : world) : Prop :=
+  SimL A [] 0 (w_nodes w) /\ (forall i, length (w_nodes w) <= i -> quiet A ([] ++ [i])) /\
+  gstate_ok A [] (w_gs w) (w_nodes w).
+
+Definition A0 : path -> ast := fun _ => AFresh.
+
+Definition wloc (ev : list event) : Prop := forallb well_addressed ev = true.
+
+Lemma gloc_wloc gp lo hi ev : gloc gp lo hi ev -> wloc ev.
+Proof. intros [H _]. exact H. Qed.
+
+Lemma wloc_app a b : wloc a -> wloc b -> wloc (a ++ b).
+Proof. unfold wloc. intros Ha Hb. rewrite forallb_app, Ha, Hb. reflexivity. Qed.
+
+Lemma SimW_ext A A' w : (forall q, A q = A' q) -> SimW A w -> SimW A' w.
+Proof.
+  intros H (H1 & H2 & H3). split; [|split].
+  - eapply SimL_ext; [|exact H1]. intros; apply H.
+  - intros i Hi. eapply quiet_ext; [|apply H2; auto]. intros; apply H.
+  - unfold gstate_ok in *. rewrite <- (H []). destruct (w_gs w); auto.
+    destruct H3 as [H3|[[H3 H4]|H3]]; auto. right; left. split; auto. eapply quiet_ext; [|exact H3]. intros; apply H.
+Qed.
+
+Lemma stop_world_spec pl A w w' ev f :
+  SimW A w -> stop_world pl w = (w', ev, f) ->
+  wloc ev /\ SimW (after A ev) w' /\ w_gs w' = false.
+Proof.
+  intros (H1 & H2 & H3) Hrun. unfold stop_world in Hrun.
+  destruct (stop_graph_with (stop_node pl) true [] (w_gs w) (w_gt w) (w_nodes w)) as [[[[gs gt] ch] ev'] f'] eqn:E.
+  inversion Hrun; subst; clear Hrun.
+  assert (Hspec : Forall (stop_spec (stop_node pl)) (w_nodes w)).
+  { apply Forall_forall. intros c _. apply stop_node_spec. }
+  destruct (stop_graph_spec _ _ _ _ _ _ _ _ _ _ _ _ Hspec H1 H2 H3 E) as (G & -> & -> & L & S1 & Q1 & Ok1 & _).
+  split; [eapply gloc_wloc; eauto|]. split; [|reflexivity]. split; [|split]; simpl; auto.
+Qed.
+
+Lemma eval_loop_root_note eval1 due1 gp t : forall l i l' ev fl,
+  eval_loop eval1 due1 true gp t i l = (l', ev, Some fl) -> exists j, f_note fl = Some (j, PEval).
+Proof.
+  induction l as [|c r IH]; intros i l' ev fl E; simpl in E; [discriminate|].
+  destruct (due1 t c).
+  - destruct (eval1 (gp ++ [i]) t c) as [[c1 e1] g1]. destruct g1.
+    + inversion E; subst. simpl. eauto.
+    + destruct (eval_loop eval1 due1 true gp t (S i) r) as [[r' e2] g2] eqn:E2.
+      inversion E; subst. eapply IH; eauto.
+  - destruct (eval_loop eval1 due1 true gp t (S i) r) as [[r' e2] g2] eqn:E2.
+    inversion E; subst. eapply IH; eauto.
+Qed.
+
+Lemma cycles_spec pl sp e : forall fuel lo A w w' ev f,
+  SimW A w -> w_gs w = true -> cycles pl sp e fuel lo w = (w', ev, f) ->
+  wloc ev /\ SimW (after A ev) w' /\ w_gs w' = true /\ (forall fl, f = Some fl -> exists i, f_note fl = Some (i, PEval)).
+Proof.
+  induction fuel as [|fuel IH]; intros lo A w w' ev f Hsim Hgs Hrun; simpl in Hrun.
+  - inversion Hrun; subst. rewrite after_nil. split; [reflexivity|]. split; [exact Hsim|]. split; [exact Hgs|]. intros fl X; discriminate X.
+  - destruct (min_next_list lo (w_nodes w)) as [nx|].
+    2:{ inversion Hrun; subst. rewrite after_nil. split; [reflexivity|]. split; [exact Hsim|]. split; [exact Hgs|]. intros fl X; discriminate X. }
+    destruct (e <=? nx)%Z.
+    { inversion Hrun; subst. rewrite after_nil. split; [reflexivity|]. split; [exact Hsim|]. split; [exact Hgs|]. intros fl X; discriminate X. }
+    destruct (eval_graph_with (eval_node pl) due true [] (w_gs w) (w_gt w) (w_nodes w) nx)
+      as [[[[gs gt] ch] ev1] f1] eqn:E.
+    destruct Hsim as (H1 & H2 & H3). rewrite Hgs in *.
+    assert (Hspec : Forall (eval_spec (eval_node pl)) (w_nodes w)).
+    { apply Forall_forall. intros c _. apply eval_node_spec. }
+    destruct (eval_graph_spec _ _ _ _ _ _ _ _ _ _ _ _ _ Hspec H1 H2 H3 E) as (G & L & -> & S1 & Q1 & Ok1).
+    assert (Hw1 : SimW (after A ev1) (W true gt ch)) by (split; [|split]; simpl; auto).
+    destruct f1 as [x|].
+    + inversion Hrun; subst; clear Hrun. split; [eapply gloc_wloc; eauto|]. split; auto. split; auto.
+      intros fl Hfl. inversion Hfl; subst. clear - E.
+      unfold eval_graph_with in E. destruct (eval_loop (eval_node pl) due true [] nx 0 (w_nodes w)) as [[l1 ev1'] f'] eqn:E1.
+      inversion E; subst. eapply eval_loop_root_note; eauto.
+    + destruct (stop_requested sp ev1).
+      * inversion Hrun; subst; clear Hrun. split; [eapply gloc_wloc; eauto|]. split; [exact Hw1|]. split; [reflexivity|]. intros fl X; discriminate X.
+      * destruct (cycles pl sp e fuel (nx + 1)%Z (W true gt ch)) as [[w2 ev2] f2] eqn:E2.
+        inversion Hrun; subst; clear Hrun.
+        destruct (IH _ _ _ _ _ _ Hw1 eq_refl E2) as (Wl & S2 & G2 & N2).
+        split; [apply wloc_app; auto; eapply gloc_wloc; eauto|]. split; [|split; auto].
+        eapply SimW_ext; [|exact S2]. intro q. rewrite after_app. reflexivity.
+Qed.
+
+Lemma quiet_A0 p : quiet A0 p.
+Proof. intro r. reflexivity. Qed.
+
+Lemma SimW_init w : w_gs w = false -> forallb clean (w_nodes w) = true -> SimW A0 w.
+Proof.
+  intros Hgs Hcl. split; [|split].
+  - apply clean_SimL; auto. intros; apply quiet_A0.
+  - intros; apply quiet_A0.
+  - rewrite Hgs. right; left. split; auto. apply quiet_A0.
+Qed.
+
+Lemma run_spec pl sp cfg w w1 ev f :
+  w_gs w = false -> forallb clean (w_nodes w) = true ->
+  run pl sp cfg w = (w1, ev, f) ->
+  wloc ev /\ SimW (after A0 ev) w1 /\
+  (w_gs w1 = true -> c_cleanup cfg = false /\ exists fl i, f = Some fl /\ f_note fl = Some (i, PEval)).
+Proof.
+  intros Hgs Hcl Hrun. unfold run in Hrun.
+  destruct (c_end cfg <=? c_start cfg)%Z.
+  { inversion Hrun; subst. rewrite after_nil. split; [reflexivity|]. split; [apply SimW_init; auto|].
+    intro H. congruence. }
+  rewrite Hgs in Hrun.
+  destruct (start_graph_with (start_node pl) (stop_node pl) true [] false (w_gt w) (w_nodes w) (c_start cfg))
+    as [[[[gs gt] ch] ev0] f0] eqn:E0.
+  assert (Hspec : Forall (start_spec (start_node pl)) (w_nodes w)).
+  { apply Forall_forall. intros c _. apply start_node_spec. }
+  destruct (start_graph_spec _ _ _ _ _ _ _ A0 _ _ _ _ _ (stop_node_spec pl) Hspec Hcl (quiet_A0 []) E0)
+    as (G0 & L0 & Hgs0 & S0 & Q0 & Ok0).
+  assert (Hw0 : SimW (after A0 ev0) (W gs gt ch)) by (split; [|split]; simpl; auto).
+  destruct f0 as [f0|].
+  - inversion Hrun; subst; clear Hrun. split; [eapply gloc_wloc; eauto|]. split; auto.
+    simpl. intro H; discriminate H.
+  - simpl in Hgs0. subst gs.
+    destruct (cycles pl sp (c_end cfg) (c_fuel cfg) (c_start cfg) (W true gt ch)) as [[w1' ev1] f1] eqn:E1.
+    destruct (cycles_spec _ _ _ _ _ _ _ _ _ _ Hw0 eq_refl E1) as (Wl1 & S1 & G1 & N1).
+    assert (Hw1 : SimW (after A0 (ev0 ++ ev1)) w1').
+    { eapply SimW_ext; [|exact S1]. intro q. rewrite after_app. reflexivity. }
+    assert (Wl01 : wloc (ev0 ++ ev1)) by (apply wloc_app; auto; eapply gloc_wloc; eauto).
+    destruct f1 as [f1|].
+    + destruct (c_cleanup cfg) eqn:Ecl.
+      * destruct (stop_world pl w1') as [[w2 ev2] f2] eqn:E2.
+        inversion Hrun; subst; clear Hrun.
+        destruct (stop_world_spec _ _ _ _ _ _ Hw1 E2) as (Wl2 & S2 & G2).
+        split; [rewrite app_assoc; apply wloc_app; auto|]. split.
+        -- eapply SimW_ext; [|exact S2]. intro q. rewrite app_assoc, after_app. reflexivity.
+        -- intro H. congruence.
+      * inversion Hrun; subst; clear Hrun. split; auto. split; auto. intros _. split; auto.
+        destruct (N1 f1 eq_refl) as [i Hi]. eauto.
+    + destruct (stop_world pl w1') as [[w2 ev2] f2] eqn:E2.
+      inversion Hrun; subst; clear Hrun.
+      destruct (stop_world_spec _ _ _ _ _ _ Hw1 E2) as (Wl2 & S2 & G2).
+      split; [rewrite app_assoc; apply wloc_app; auto|]. split.
+      * eapply SimW_ext; [|exact S2]. intro q. rewrite app_assoc, after_app. reflexivity.
+      * intro H. congruence.
+Qed.
+
+(* ------------------------------------------------------------------ disposal *)
+Definition dispose_spec (dispose1 : path -> node -> node * list event) (c : node) : Prop :=
+  forall gp i A c' ev,
+    SimN A (gp ++ [i]) c -> dispose1 (gp ++ [i]) c = (c', ev) ->
+    wloc ev /\ (forall gq, ~ prefix (gp ++ [i]) gq -> graph_word gq ev = []) /\
+    NoBad (after A ev) (gp ++ [i]) /\
+    ((forall gl, ast_leaked (A gl) = false) -> node_started c = false ->
+     ev = [] /\ forall r, ast_final (A ((gp ++ [i]) ++ r)) = true).
+
+Lemma dispose_loop_spec dispose1 gp : forall l i A l' ev,
+  Forall (dispose_spec dispose1) l -> SimL A gp i l ->
+  dispose_loop dispose1 gp i l = (l', ev) ->
+  wloc ev /\
+  (forall gq, (forall j, i <= j < i + length l -> ~ prefix (gp ++ [j]) gq) -> graph_word gq ev = []) /\
+  (forall j, i <= j < i + length l -> NoBad (after A ev) (gp ++ [j])) /\
+  ((forall gl, ast_leaked (A gl) = false) -> forallb node_stopped l = true ->
+   ev = [] /\ forall j r, i <= j < i + length l -> ast_final (A ((gp ++ [j]) ++ r)) = true).
+Proof.
+  induction l as [|c r IH]; intros i A l' ev Hspec Hsim Hrun; unfold SimL in *;
+    cbn [dispose_loop length ForallI forallb] in *.
+  - inversion Hrun; subst. split; [reflexivity|]. split; [auto|]. split; [intros; lia|]. intros _ _. split; auto. intros; lia.
+  - inversion Hspec as [|? ? Hc Hr]; subst. destruct Hsim as [Hsc Hsr].
+    destruct (dispose_loop dispose1 gp (S i) r) as [r' ev1] eqn:E1.
+    destruct (dispose1 (gp ++ [i]) c) as [c' ev2] eqn:E2.
+    inversion Hrun; subst; clear Hrun.
+    destruct (IH (S i) A r' ev1 Hr Hsr E1) as (W1 & F1 & B1 & C1).
+    assert (Hsc1 : SimN (after A ev1) (gp ++ [i]) c).
+    { apply SimN_after_same; auto. intro s. apply F1. intros j Hj. apply child_region_other. lia. }
+    destruct (Hc gp i (after A ev1) c' ev2 Hsc1 E2) as (W2 & F2 & B2 & C2).
+    split; [apply wloc_app; auto|]. split; [|split].
+    + intros gq Hgq. rewrite graph_word_app, F1, F2; auto.
+      * apply Hgq. lia.
+      * intros j Hj. apply Hgq. lia.
+    + intros j Hj s. rewrite after_app.
+      destruct (Nat.eq_dec j i) as [->|Hne].
+      * apply B2.
+      * rewrite after_same; [apply B1; lia|]. apply F2. apply child_region_other. auto.
+    + intros Hnl Hst. apply andb_prop in Hst as [Hstc Hstr].
+      destruct (C1 Hnl Hstr) as [-> Hf1]. rewrite after_nil in *.
+      unfold node_stopped in Hstc. apply negb_true_iff in Hstc.
+      destruct (C2 Hnl Hstc) as [-> Hf2]. split; auto.
+      intros j s Hj. destruct (Nat.eq_dec j i) as [->|Hne]; [apply Hf2|apply Hf1; lia].
+Qed.
+
+Lemma gloc_outside gp lo hi ev gq : gloc gp lo hi ev -> ~ prefix gp gq -> graph_word gq ev = [].
+Proof.
+  intros [_ H] Hn. apply H.
+  - intros ->. apply Hn. apply prefix_refl.
+  - intros j _ Hp. apply Hn. eapply prefix_trans; [|exact Hp]. apply prefix_app.
+Qed.
+
+Lemma gstate_rest_final A gp ch :
+  gstate_ok A gp false ch -> (forall gl, ast_leaked (A gl) = false) ->
+  ast_final (A gp) = true /\ forallb node_stopped ch = true.
+Proof.
+  intros [[H _]|[[H Hc]|[H Hs]]] Hnl.
+  - rewrite Hnl in H. discriminate.
+  - specialize (H []). rewrite app_nil_r in H. rewrite H. split; auto. apply clean_all_stopped; auto.
+  - split; auto. destruct (A gp); simpl in *; congruence.
+Qed.
+
+Lemma dispose_node_spec pl : forall n, dispose_spec (dispose_node pl) n.
+Proof.
+  induction n as [per st nx cs ce cp|st gs gt ch IH] using node_ind';
+    intros gp i A c' ev Hsim Hrun; simpl in Hrun.
+  - inversion Hrun; subst. rewrite after_nil. split; [reflexivity|]. split; [auto|]. split.
+    + apply quiet_NoBad. exact Hsim.
+    + intros _ _. split; auto. intro r. rewrite (Hsim r). reflexivity.
+  - destruct Hsim as (Hst & Hsim & Hq & Hok). subst st. destruct gs.
+    + destruct (stop_graph_with (stop_node pl) false (gp ++ [i]) true gt ch) as [[[[gs' gt'] ch'] ev'] f'] eqn:E.
+      inversion Hrun; subst; clear Hrun.
+      assert (Hspec : Forall (stop_spec (stop_node pl)) ch).
+      { apply Forall_forall. intros c _. apply stop_node_spec. }
+      destruct (stop_graph_spec _ _ _ _ _ _ _ _ _ _ _ _ Hspec Hsim Hq Hok E) as (G & -> & -> & L & S1 & Q1 & Ok1 & _).
+      split; [eapply gloc_wloc; eauto|]. split; [intros gq Hgq; eapply gloc_outside; eauto|]. split.
+      * apply (SimN_NoBad (Nest false false gt ch')). simpl. repeat split; auto.
+      * intros _ H. discriminate H.
+    + destruct (dispose_loop (fun q c => dispose_node pl q c) (gp ++ [i]) 0 ch) as [ch' ev'] eqn:E.
+      inversion Hrun; subst; clear Hrun.
+      assert (Hspec : Forall (dispose_spec (fun q c => dispose_node pl q c)) ch).
+      { eapply Forall_impl; [|exact IH]. intros c Hc. exact Hc. }
+      destruct (dispose_loop_spec _ _ _ _ _ _ _ Hspec Hsim E) as (W1 & F1 & B1 & C1).
+      split; auto. split; [|split].
+      * intros gq Hgq. apply F1. intros j _ Hp. apply Hgq. eapply prefix_trans; [|exact Hp]. apply prefix_app.
+      * intro r. destruct (split_path_cases r) as [->|(j & s & ->)].
+        -- rewrite app_nil_r. rewrite after_same.
+           ++ assert (Hb : NoBad A (gp ++ [i])).
+              { apply (SimN_NoBad (Nest false false gt ch)). simpl. repeat split; auto. }
+              specialize (Hb []). rewrite app_nil_r in Hb. exact Hb.
+           ++ apply F1. intros j _. apply not_prefix_child.
+        -- rewrite <- app_snoc_region. destruct (lt_dec j (length ch)) as [Hj|Hj].
+           ++ apply B1. lia.
+           ++ rewrite after_same.
+              ** rewrite (Hq j); [reflexivity|lia].
+              ** apply F1. intros k Hk. apply child_region_other. lia.
+      * intros Hnl _. destruct (gstate_rest_final _ _ _ Hok Hnl) as [Hf Hs].
+        destruct (C1 Hnl Hs) as [-> Hfin]. split; auto.
+        intro r. destruct (split_path_cases r) as [->|(j & s & ->)].
+        -- rewrite app_nil_r. exact Hf.
+        -- rewrite <- app_snoc_region. destruct (lt_dec j (length ch)) as [Hj|Hj].
+           ++ apply Hfin. lia.
+           ++ rewrite (Hq j); [reflexivity|lia].
+Qed.
+
+(* ------------------------------------------------------------------ the whole life of an executor *)
+Definition Aof (L : list event) : path -> ast := after A0 L.
+
+Lemma Aof_eq L gq : Aof L gq = arun AFresh (graph_word gq L).
+Proof. reflexivity. Qed.
+
+Lemma root_region (j : nat) (s : path) : ([] ++ [j]) ++ s = j :: s.
+Proof. reflexivity. Qed.
+
+Lemma SimW_NoBad A w : SimW A w -> w_gs w = false -> forall gq, ast_bad (A gq) = false.
+Proof.
+  intros (H1 & H2 & H3) Hgs gq. rewrite Hgs in H3.
+  assert (Hb : NoBad A []).
+  { apply (SimN_NoBad (Nest false false 0%Z (w_nodes w))). simpl. repeat split; auto. }
+  apply (Hb gq).
+Qed.
+
+Lemma rest_final pl A w l' ev :
+  SimW A w -> w_gs w = false -> (forall gl, ast_leaked (A gl) = false) ->
+  dispose_loop (dispose_node pl) [] 0 (w_nodes w) = (l', ev) ->
+  ev = [] /\ forall gq, ast_final (A gq) = true.
+Proof.
+  intros (H1 & H2 & H3) Hgs Hnl E. rewrite Hgs in H3.
+  assert (Hspec : Forall (dispose_spec (dispose_node pl)) (w_nodes w)).
+  { apply Forall_forall. intros c _. apply dispose_node_spec. }
+  destruct (dispose_loop_spec _ _ _ _ _ _ _ Hspec H1 E) as (_ & _ & _ & C1).
+  destruct (gstate_rest_final _ _ _ H3 Hnl) as [Hf Hs].
+  destruct (C1 Hnl Hs) as [-> Hfin]. split; auto.
+  intros [|j s]; [exact Hf|].
+  destruct (lt_dec j (length (w_nodes w))) as [Hj|Hj].
+  - rewrite <- root_region. apply Hfin. lia.
+  - rewrite <- root_region. rewrite (H2 j); [reflexivity|lia].
+Qed.
+
+Lemma leaked_sticky m c w : ast_bad (arun (ALeaked m c) w) = false -> w = [].
+Proof.
+  destruct w as [|s w]; auto. simpl. intro H. exfalso.
+  assert (Hb : forall w', arun ABad w' = ABad) by (induction w'; simpl; auto).
+  destruct s; simpl in H; rewrite Hb in H; discriminate.
+Qed.
+
+Lemma release_spec pl A w w' ev :
+  SimW A w -> release pl w = (w', ev) ->
+  wloc ev /\ (forall gq, ast_bad (after A ev gq) = false) /\
+  ((forall gl, ast_leaked (after A ev gl) = false) -> forall gq, ast_final (after A ev gq) = true) /\
+  (w_gs w = false -> (forall gl, ast_leaked (A gl) = false) -> ev = [] /\ forall gq, ast_final (A gq) = true).
+Proof.
+  intros Hsim Hrun. unfold release in Hrun.
+  destruct (stop_world pl w) as [[w1 ev1] f1] eqn:E1.
+  destruct (dispose_loop (dispose_node pl) [] 0 (w_nodes w1)) as [ch ev2] eqn:E2.
+  inversion Hrun; subst; clear Hrun.
+  destruct (stop_world_spec _ _ _ _ _ _ Hsim E1) as (W1 & S1 & G1).
+  assert (Hspec : Forall (dispose_spec (dispose_node pl)) (w_nodes w1)).
+  { apply Forall_forall. intros c _. apply dispose_node_spec. }
+  destruct S1 as (H1 & H2 & H3).
+  destruct (dispose_loop_spec _ _ _ _ _ _ _ Hspec H1 E2) as (W2 & F2 & B2 & C2).
+  assert (Hnb : forall gq, ast_bad (after A (ev1 ++ ev2) gq) = false).
+  { intro gq. rewrite after_app. destruct gq as [|j s].
+    - rewrite after_same; [apply (SimW_NoBad _ w1); auto; split; auto|]. apply F2.
+      intros j _. apply (not_prefix_child [] j).
+    - destruct (lt_dec j (length (w_nodes w1))) as [Hj|Hj].
+      + rewrite <- root_region. apply B2. lia.
+      + rewrite after_same.
+        * rewrite <- root_region. rewrite (H2 j); [reflexivity|lia].
+        * apply F2. intros k Hk. change (j :: s) with (([] ++ [j]) ++ s). apply child_region_other. lia. }
+  split; [apply wloc_app; auto|]. split; [exact Hnb|]. split.
+  - intros Hnl2.
+    assert (Hnl : forall gl, ast_leaked (after A ev1 gl) = false).
+    { intro gl. destruct (ast_leaked (after A ev1 gl)) eqn:El; auto.
+      specialize (Hnl2 gl). rewrite after_app in Hnl2. unfold after at 1 in Hnl2.
+      destruct (after A ev1 gl) eqn:Eg; try discriminate.
+      pose proof (Hnb gl) as Hb. rewrite after_app in Hb. unfold after at 1 in Hb. rewrite Eg in Hb.
+      apply leaked_sticky in Hb. rewrite Hb in Hnl2. simpl in Hnl2. discriminate. }
+    destruct (rest_final pl _ w1 _ _ (conj H1 (conj H2 H3)) G1 Hnl E2) as [-> Hf].
+    intro gq. rewrite app_nil_r. apply Hf.
+  - intros Hgs Hnl.
+    assert (Hev1 : ev1 = [] /\ w1 = w).
+    { unfold stop_world in E1. unfold stop_graph_with in E1. rewrite Hgs in E1. inversion E1; subst.
+      destruct w; simpl in *; subst; auto. }
+    destruct Hev1 as [-> ->]. rewrite after_nil in *.
+    destruct (rest_final pl A w _ _ Hsim Hgs Hnl E2) as [-> Hf]. split; auto.
+Qed.
+
+Definition fresh_world (w : world) : Prop := w_gs w = false /\ forallb clean (w_nodes w) = true.
+
+Theorem life_facts pl sp cfg w ev1 f w1 ev2 w2 :
+  fresh_world w ->
+  life pl sp cfg w = (ev1, f, w1, ev2, w2) ->
+  wloc (ev1 ++ ev2) /\
+  (forall gq, ast_bad (Aof (ev1 ++ ev2) gq) = false) /\
+  ((forall gl, ast_leaked (Aof (ev1 ++ ev2) gl) = false) -> forall gq, ast_final (Aof (ev1 ++ ev2) gq) = true) /\
+  ((c_cleanup cfg = true \/ (forall fl i, f = Some fl -> f_note fl <> Some (i, PEval))) ->
+   (forall gl, ast_leaked (Aof ev1 gl) = false) ->
+   ev2 = [] /\ forall gq, ast_final (Aof ev1 gq) = true).
+Proof.
+  intros [Hgs Hcl] Hlife. unfold life in Hlife.
+  destruct (run pl sp cfg w) as [[w1' ev1'] f'] eqn:E1.
+  destruct (release pl w1') as [w2' ev2'] eqn:E2.
+  inversion Hlife; subst; clear Hlife.
+  destruct (run_spec _ _ _ _ _ _ _ Hgs Hcl E1) as (W1 & S1 & T1).
+  destruct (release_spec _ _ _ _ _ S1 E2) as (W2 & B2 & C2 & R2).
+  split; [apply wloc_app; auto|]. split; [|split].
+  - intro gq. unfold Aof. rewrite after_app. apply B2.
+  - intros Hnl gq. unfold Aof. rewrite after_app. apply C2. intro gl. specialize (Hnl gl).
+    unfold Aof in Hnl. rewrite after_app in Hnl. exact Hnl.
+  - intros Hc Hnl. apply R2; auto.
+    destruct (w_gs w1) eqn:Eg; auto. destruct (T1 eq_refl) as (Hcu & fl & i & -> & Hn).
+    destruct Hc as [Hc|Hc]; [congruence|]. exfalso. eapply Hc; eauto.
+Qed.
